@@ -2,7 +2,7 @@
 """C-d code-book rules (writer <-> reader agreement) built on sa/codebooks.py"""
 import ast
 from .core import AnalysisError
-from .astutil import src
+from .astutil import src, helper_returns
 from .codebooks import regex_literal, group_language, whole_language, atom_re_groups, TOK
 from .tables import module_literal
 
@@ -131,7 +131,11 @@ def rule_smiles_codebooks(ck, repo, R):
     hw = set()
     for n in ast.walk(fa.node):
         if isinstance(n, ast.Assign) and src(n.targets[0]) == 'smi[4]':
-            hw.add(src(n.value))
+            rets = helper_returns(n.value, fa.module.tree)  # token chosen by an extracted helper: its return expressions, arguments substituted
+            if rets is not None:
+                hw |= {src(r) for r in rets if src(r) != "''"}
+            else:
+                hw.add(src(n.value))
     ck.decide(hw == {"'H'", "f'H{atom.implicit_hydrogens}'"} and 'H' in hl and all(f'H{i}' in hl for i in range(2, 5)), R, 'hydrogens', sorted(hw),
               f'hydrogen tokens written {sorted(hw)} vs read {sorted(hl)}', file=fa.file, line=fa.lineno)
     ap = repo.func(f'{TOK}:_atom_parse')
